@@ -217,30 +217,47 @@ import sympy as sp
 from sympy.physics import units
 from symplyphysics import Quantity, dimensionless, validate_input, validate_output
 from symplyphysics.core.errors import UnitsError
-from symplyphysics.core.vectors.vectors import QuantityVector
-style = {style!r}; seq = {seq!r}
-a_ok, b_oks, c_ok, r_ok = {a_ok!r}, {b_oks!r}, {c_ok!r}, {r_ok!r}
-L, T, M = units.length, units.time, units.mass
-def q(ok, good, bad): return Quantity(2, dimension=good if ok else bad)
+from sympy.physics.units.definitions.dimension_definitions import angle as angle_type
+BASE = [units.mass, units.length, units.time, units.current, units.temperature, units.amount_of_substance, units.luminous_intensity, angle_type]
+def mkdim(exps):
+    d = dimensionless
+    for b, e in zip(BASE, exps):
+        e = sp.Rational(e)
+        if e != 0: d = d * b**e
+    return d
+style = {style!r}; seq = {seq!r}; opt = {opt!r}
+E = {E!r}        # declared dimensions of a, b, c, return (exponent vectors; last slot = angle)
+D = {D!r}        # actual (scale, exponent vector) of a, every b, c, returned value
+def mk(sd): return Quantity(sp.Rational(sd[0]), dimension=mkdim(sd[1]))
+def passes(sd, e): return sp.Rational(sd[0]) == 0 or [sp.Rational(x) for x in sd[1][:7]] == [sp.Rational(x) for x in e[:7]]
+a_ok = passes(D["a"], E["a"]); b_oks = [passes(x, E["b"]) for x in D["b"]]; c_ok = passes(D["c"], E["c"]); r_ok = passes(D["r"], E["r"])
 entered = []
-@validate_input(a=L, b=T, c=M)
-@validate_output(units.energy)
-def f(a, b, *, c):
+def body():
     entered.append(1)
-    return q(r_ok, units.energy, units.power)
-a = q(a_ok, L, T); c = q(c_ok, M, L)
-b = [q(ok, T, M) for ok in b_oks] if seq else q(b_oks[0], T, M)
+    return mk(D["r"])
+if opt:
+    # an unguarded optional parameter stands before a guarded one and is left out by keyword-style callers
+    @validate_input(a=mkdim(E["a"]), b=mkdim(E["b"]), c=mkdim(E["c"]))
+    @validate_output(mkdim(E["r"]))
+    def f(a, k=7, b=None, *, c): return body()
+else:
+    @validate_input(a=mkdim(E["a"]), b=mkdim(E["b"]), c=mkdim(E["c"]))
+    @validate_output(mkdim(E["r"]))
+    def f(a, b, *, c): return body()
+a = mk(D["a"]); c = mk(D["c"])
+b = [mk(x) for x in D["b"]] if seq else mk(D["b"][0])
 want_enter = a_ok and all(b_oks) and c_ok
 want_return = want_enter and r_ok
 try:
-    if style == "positional": f(a, b, c=c)
+    if style == "positional": f(a, 7, b, c=c) if opt else f(a, b, c=c)
     elif style == "keyword": f(a=a, b=b, c=c)
     elif style == "reordered": f(c=c, b=b, a=a)
     else: f(a, c=c, b=b)
     returned = True; msg = ""
 except (TypeError, UnitsError) as e:
     returned = False; msg = str(e)
-print("style", style, "entered", bool(entered), "returned", returned, msg)
+print("style", style, "optional-before-guarded", opt, "entered", bool(entered), "returned", returned, msg)
+print("declared", E); print("actual", D); print("want entered", want_enter, "want returned", want_return)
 bad = (bool(entered) != want_enter) or (returned != want_return)
 if not returned and not bad:
     # the error must name a parameter that really fails
@@ -257,9 +274,11 @@ def part_b(ctx):
     from symplyphysics.core.dimensions import dimensions as DM
     styles = ["positional", "keyword", "reordered", "mixed"]
     seq_lens = [None, 0, 1, 2, 3] if ctx.tier == "thorough" else [None, 0, 2]
-    for style, blen in itertools.product(styles, seq_lens):
+    for style, blen, opt in itertools.product(styles, seq_lens, [False, True]):
+        if opt and blen not in (None, 2):
+            continue
         ses = Session(ctx)
-        name = f"B:{style}:b={'scalar' if blen is None else 'seq' + str(blen)}"
+        name = f"B:{style}:b={'scalar' if blen is None else 'seq' + str(blen)}" + (":optional-before-guarded" if opt else "")
         with ses.active(), rebound(*standard_bindings()):
             Ea, Eb, Ec, Er = (ses.dim(n) for n in ("Ea", "Eb", "Ec", "Er"))
             mk = lambda stem: make_quantity(ses.scalar(stem), ses.dim("D" + stem))
@@ -267,15 +286,20 @@ def part_b(ctx):
             b = mk("b") if blen is None else [mk(f"b{i}_") for i in range(blen)]
             entered = []
 
-            def raw(a, b, *, c):
-                entered.append(True)
-                return r
+            if opt:
+                def raw(a, k=7, b=None, *, c):
+                    entered.append(True)
+                    return r
+            else:
+                def raw(a, b, *, c):
+                    entered.append(True)
+                    return r
             f = QD.validate_input(a=Ea, b=Eb, c=Ec)(QD.validate_output(Er)(raw))
 
             def call():
                 entered.clear()
                 if style == "positional":
-                    return f(a, b, c=c)
+                    return f(a, 7, b, c=c) if opt else f(a, b, c=c)
                 if style == "keyword":
                     return f(a=a, b=b, c=c)
                 if style == "reordered":
@@ -346,10 +370,12 @@ def part_b(ctx):
                 if res == "unsat":
                     ctx.ob(pname, "discharged")
                 elif res == "sat":
-                    ok = lambda fm: bool(z3.is_true(m.eval(fm, model_completion=True)))
-                    b_oks = [ok(pass_in[nm]) for nm, _, _ in items if nm.startswith("b")] or [True]
-                    vals = dict(style=style, seq=blen is not None, a_ok=ok(pass_in["a"]), b_oks=b_oks, c_ok=ok(pass_in["c"]), r_ok=ok(pass_out))
-                    ctx.violation(f"C04:B:{style}:{'seq' if blen is not None else 'scalar'}:{label}",
+                    mv = lambda z: str(model_value(m, z))
+                    sd = lambda qq: (mv(ses.z(qq.scale_factor)), [mv(x) for x in to_vec(qq.dimension)])
+                    vals = dict(style=style, seq=blen is not None, opt=opt,
+                                E={"a": model_dims(ses, m, Ea.vec), "b": model_dims(ses, m, Eb.vec), "c": model_dims(ses, m, Ec.vec), "r": model_dims(ses, m, Er.vec)},
+                                D={"a": sd(a), "b": [sd(x) for x in (b if blen is not None else [b])], "c": sd(c), "r": sd(r)})
+                    ctx.violation(f"C04:B:{style}:{'seq' if blen is not None else 'scalar'}{':opt' if opt else ''}:{label}",
                                   f"decorator wiring: path {label} (entered={ent}) contradicts the gate predicate; {vals}", REPLAY_WIRING.format(**vals))
                 else:
                     ctx.ob(pname, "inconclusive", "unknown")
